@@ -37,8 +37,9 @@ CFG = {'module': 'Dnp3.Props.C13',
                  'compares octets)'],
  'level_text': 'Lean theorems for all states / histories: session model (exact IIN formula of every fresh '
                'response; restart, broadcast and application bits) and database model (class bits = an '
-               'unwritten event of the class is buffered, proved for histories without D3; overflow bit '
-               'interval); tie: correspondence of the real task and the real Database vs the models + IIN '
-               'ledger monitors',
+               'unwritten event of the class is buffered and the counter subtraction never underflows, for '
+               'every operation sequence from a fresh database and per operation (D3 repaired: regression '
+               'corpus db_D3); overflow bit interval); tie: correspondence of the real task and the real '
+               'Database vs the models + IIN ledger monitors',
  'level_note': 'trusted: Lean kernel, harness, scripted callbacks; Rust modelled not verified; runtime '
                'scheduling outside the model'}
